@@ -101,7 +101,7 @@ def run(ctx):
             ctx.ob('R17.1', f'submit_allocation(Submit)|{o.split("::")[-1]}', o == QTS, 'real submissions happen only in queue_try_submit', b.loc(bi))
         else:
             ctx.ob('R17.1', f'submit_allocation({mode})|{o.split("::")[-1]}', mode == 'DryRun', f'the other call site passes DryRun (observed {mode})', b.loc(bi))
-    ctx.floor('R17.1', n, 2, 'submit_allocation call sites')
+    ctx.floor('R17.1', n, 1, 'submit_allocation call sites')
     q = cor(prog, QTS)
     sb = q.call_blocks(SUBMIT)
     ctx.require(len(sb) == 1, 'R17.1: one submit_allocation call in queue_try_submit')
